@@ -187,3 +187,123 @@ def deep_strs(S, v, depth=0):
             for a in t["args"]:
                 out += deep_strs(S, S.val(a), depth + 1)
     return out
+
+
+# ----------------------------------------------------------------------------- affine values and interval conditions
+def affine(expr, var):
+    """symbolic value -> (a, b) with value == a*var + b, or None. Understands casts, checked/unchecked Add/Sub (and `.0` of the checked tuple), constants."""
+    from .sym import split_bin
+    e = expr.strip()
+    if e == var:
+        return (1, 0)
+    m = re.fullmatch(r"c:(-?\d+)", e)
+    if m:
+        return (0, int(m.group(1)))
+    if e.endswith(".0"):
+        return affine(e[:-2], var)
+    sb = split_bin(e)
+    if sb:
+        a, op, b = sb
+        if op == "as":
+            return affine(a, var)
+        op = op.rstrip("!")
+        if op in ("Add", "Sub"):
+            x, y = affine(a, var), affine(b, var)
+            if x is None or y is None:
+                return None
+            return (x[0] + y[0], x[1] + y[1]) if op == "Add" else (x[0] - y[0], x[1] - y[1])
+    m = re.fullmatch(r"\((.*) as [A-Za-z0-9_:]+\)", e)
+    if m:
+        return affine(m.group(1), var)
+    return None
+
+
+CHAR_CLASS = {"is_ascii_digit": (48, 57), "is_ascii_uppercase": (65, 90), "is_ascii_lowercase": (97, 122)}
+
+
+def interval_of(facts, var):
+    """(lo, hi, excluded set) for `var` from dominating branch facts: comparisons with constants in either operand order, through
+    value-preserving casts of var, char-class predicates, integer switch facts"""
+    from .sym import split_bin
+    lo, hi, excl = None, None, set()
+
+    def is_var(x):
+        x = x.strip()
+        while True:
+            m = re.fullmatch(r"\((.*) as [A-Za-z0-9_:]+\)", x)
+            if not m:
+                break
+            x = m.group(1)
+        return x == var or x == "&" + var or x == "*" + var
+
+    def upd(op, c):
+        nonlocal lo, hi
+        if op == "Lt":
+            hi = c - 1 if hi is None else min(hi, c - 1)
+        elif op == "Le":
+            hi = c if hi is None else min(hi, c)
+        elif op == "Gt":
+            lo = c + 1 if lo is None else max(lo, c + 1)
+        elif op == "Ge":
+            lo = c if lo is None else max(lo, c)
+        elif op == "Eq":
+            lo = c if lo is None else max(lo, c)
+            hi = c if hi is None else min(hi, c)
+        elif op == "Ne":
+            excl.add(c)
+    SW = {"Lt": "Gt", "Le": "Ge", "Gt": "Lt", "Ge": "Le", "Eq": "Eq", "Ne": "Ne"}
+    NEG = {"Lt": "Ge", "Le": "Gt", "Gt": "Le", "Ge": "Lt", "Eq": "Ne", "Ne": "Eq"}
+    for (e, tr, g) in facts:
+        if not isinstance(tr, bool):
+            if is_var(e) and tr[0] in ("==", "!="):
+                upd("Eq" if tr[0] == "==" else "Ne", tr[1])
+            continue
+        mm = re.search(r"(is_ascii_digit|is_ascii_uppercase|is_ascii_lowercase)\((.*)\)$", e)
+        if mm and is_var(mm.group(2).lstrip("&")):
+            if tr:
+                upd("Ge", CHAR_CLASS[mm.group(1)][0])
+                upd("Le", CHAR_CLASS[mm.group(1)][1])
+            continue
+        sb = split_bin(e)
+        if not sb:
+            continue
+        a, op, b = sb
+        ca = re.fullmatch(r"\(?c:(-?\d+)(?: as [a-z0-9]+\))?", a.strip())
+        cb = re.fullmatch(r"\(?c:(-?\d+)(?: as [a-z0-9]+\))?", b.strip())
+        if is_var(a) and cb and op in SW:
+            c = int(cb.group(1))
+        elif is_var(b) and ca and op in SW:
+            op, c = SW[op], int(ca.group(1))
+        else:
+            continue
+        if not tr:
+            op = NEG[op]
+        upd(op, c)
+    return lo, hi, excl
+
+
+# ----------------------------------------------------------------------------- closures: captured values
+def closure_caps(prog, owner, S=None):
+    """{closure id: [symbolic value (in the creator's terms) of each captured operand]} for closures built directly in `owner`"""
+    from .sym import Sym
+    S = S or Sym(prog, owner)
+    out = {}
+    for b in owner.blocks:
+        if b["cleanup"]:
+            continue
+        for s in b["stmts"]:
+            r = s["rhs"]
+            if r["rv"] == "agg" and r.get("cid") in prog.fns:
+                out[r["cid"]] = [S.val(o) for o in r["ops"]]
+    return out
+
+
+def outer_view(expr, caps):
+    """rewrite references to captured variables (`p1.K` with any number of derefs/refs in front) in a closure-side symbolic value
+    into the creator-side value of that capture, marked «..»; by-reference captures lose their leading `&`"""
+    def sub(m):
+        k = int(m.group(1))
+        if k < len(caps):
+            return "«%s»" % caps[k].lstrip("&*")
+        return m.group(0)
+    return re.sub(r"[&*]*p1\.(\d+)", sub, expr)
